@@ -299,7 +299,7 @@ impl<'a> LineBreaker<'a> {
                 }
             }
 
-            inner_list.extend_from_slice(&h_list[start_of_line..*break_point]);
+            inner_list.extend_from_slice(&h_list[start_of_line.min(*break_point)..*break_point]);
             start_of_line = *break_point + 1;
 
             // TeX.2021.881
@@ -338,6 +338,20 @@ impl<'a> LineBreaker<'a> {
                     _ => {
                         unreachable!("node cannot appear as a breakpoint: {break_point_node:?}");
                     }
+                }
+            }
+
+            // TeX.2021.879: prune discardable nodes at the beginning of the next line,
+            // unless the line starts with the post-break material of a discretionary.
+            let post_disc_break =
+                matches!(&disc_post_break_nodes, Some(nodes) if !nodes.is_empty());
+            if !post_disc_break {
+                let next_break_point = break_points.get(line_index + 1).copied();
+                while let Some(node) = h_list.get(start_of_line) {
+                    if Some(start_of_line) == next_break_point || node.non_discardable() {
+                        break;
+                    }
+                    start_of_line += 1;
                 }
             }
 
@@ -817,18 +831,33 @@ impl<'a> LineBreaker<'a> {
                                     }
                                 }
                             }
-                            Math(_math) => {
-                                // TODO when math node is fixed in boxworks crate.
-                            }
-                            Glue(glue) => {
-                                diffs.update_from_glue(&glue.value);
-                            }
-                            Kern(kern) => {
-                                if kern.kind == ds::KernKind::Explicit {
-                                    diffs.width -= kern.width;
+                            _ => {}
+                        }
+                        // TeX.2021.837: the discardable nodes that follow the break
+                        // (including the break node itself) are not part of the next line.
+                        let mut j = match elem {
+                            Discretionary(discretionary) => {
+                                if discretionary.post_break.is_empty() {
+                                    Some(i + 1 + discretionary.replace_count as usize)
+                                } else {
+                                    None
                                 }
                             }
-                            _ => {}
+                            _ => Some(i),
+                        };
+                        while let Some(node) = j.and_then(|j| list.get(j)) {
+                            match node {
+                                Glue(glue) => diffs.update_from_glue(&glue.value),
+                                Penalty(_) => {}
+                                Math(_math) => {
+                                    // TODO when math node is fixed in boxworks crate.
+                                }
+                                Kern(kern) if kern.kind == ds::KernKind::Explicit => {
+                                    diffs.width += kern.width;
+                                }
+                                _ => break,
+                            }
+                            j = j.map(|j| j + 1);
                         }
                     }
                     for fitness_class in [
